@@ -98,6 +98,8 @@ def shrink(prop, runner, finding, budget=40, seconds=90):
     """greedy one-step delta debugging: keep a candidate if the same reason class persists;
     bounded in rounds and in wall-clock time (large failing inputs are reported as they are)"""
     cur = finding
+    if os.environ.get("VERIF_NO_SHRINK"):
+        return cur      # corpus harvesting keeps the generated (well-formed by construction) case
     t0 = time.time()
     runner.call_timeout = 60
     for _ in range(budget):
